@@ -96,6 +96,18 @@ func runC06(r *run) {
 			wf := &world{files: []map[string]string{{"main.tpl": s, "wrap.tpl": "[{% include \"main.tpl\" %}]", "child.tpl": "{% extends \"main.tpl\" %}"}}}
 			emit(caseT{"textfile", append(wf.args(rg.pick([]string{"main.tpl", "wrap.tpl", "child.tpl"}), c06Ctx()), "-", "-", hx(s))})
 		}
+		// whitespace-control delimiters next to text that comments and verbatim blocks split into
+		// several pieces: only the whitespace that touches the delimiter goes
+		for i := 0; i < nfr/3; i++ {
+			var sb strings.Builder
+			for k := 0; k < 2+rg.intn(6); k++ {
+				sb.WriteString(rg.pick([]string{" a ", "a b", "\n x", " ", "  \t", "x", "{# c #}", "{# c #}", "{% verbatim %} v {% endverbatim %}", "{% verbatim %}{% endverbatim %}",
+					"{{ b -}}", "{{- b }}", "{{- b -}}", "{%- if a %}", "{% if a -%}", "{%- if a -%}", "{% comment %}x{% endcomment %}", "{%- comment -%} x {%- endcomment -%}", "{{ b }}"}))
+			}
+			src := sb.String()
+			src += strings.Repeat("{% endif %}", strings.Count(src, "if a"))
+			emit(caseT{"render", w.args(src, c06Ctx())})
+		}
 		// fragment sequences
 		for i := 0; i < nfr; i++ {
 			g := newDocGen(rg.fork(uint64(i)))
@@ -175,6 +187,18 @@ func execC06(r *run, c caseT) {
 			}
 			if e1 == nil && string(b1) != keep {
 				r.reject(id, "the bytes returned by ExecuteBytes changed when something else was rendered afterwards", map[string]any{"source_hex": c.args[0], "before": keep, "after": string(b1)})
+				return
+			}
+		}
+		// the bytes handed to FromBytes belong to the caller: reusing them afterwards changes nothing
+		buf := []byte(src)
+		if tpl, err := pongo2.FromBytes(buf); err == nil {
+			for k := range buf {
+				buf[k] = 'X'
+			}
+			copy(buf, "{{ 1 }}{% if")
+			if out, xerr := tpl.Execute(ctx.goContext()); xerr == nil && o.err == nil && out != o.out {
+				r.reject(id, "a template compiled by FromBytes changed when the caller reused its byte slice", map[string]any{"source_hex": c.args[0], "output": out, "expected": o.out})
 				return
 			}
 		}
